@@ -101,7 +101,7 @@ theorem manyLoop_complete {α} (fl : Flags) (p : P α) (close : TokKind) (V : α
 theorem many_complete {α} (fl : Flags) (p : P α) (opn close : TokKind) (V : α → Item) (Fol : List Tok → Prop)
     (n : Nat) (xs : List α) (l l' : Tok) (ts rest : List Tok)
     (hne : xs ≠ []) (hn : xs.length ≤ n)
-    (hp : ∀ x ∈ xs, ∀ l ts' l' rest, ts'.length ≤ ts.length → (V x).check fl l ts' = some (l', rest) → Fol rest →
+    (hp : ∀ x ∈ xs, ∀ l ts' l' rest, ts'.length < ts.length → (V x).check fl l ts' = some (l', rest) → Fol rest →
         p ⟨ts', l⟩ = .ok (x, ⟨rest, l'⟩))
     (hfirst : ∀ x ∈ xs, ∀ l ts r, (V x).check fl l ts = some r → Fol ts ∧ NotK [close] ts)
     (hclose : ∀ t tl, t.kind = close → Fol (t :: tl))
@@ -109,7 +109,8 @@ theorem many_complete {α} (fl : Flags) (p : P α) (opn close : TokKind) (V : α
     many n opn p close ⟨ts, l⟩ = .ok (xs, ⟨rest, l'⟩) := by
   simp only [checkAll_cons, check_tok] at h
   obtain ⟨l1, ts1, ⟨t, rfl, hc, rfl⟩, hall⟩ := h
-  have c := manyLoop_complete fl p close V Fol (l1 :: ts1).length n xs l1 l' ts1 rest hne hn (by simp) hp hfirst hclose
+  have c := manyLoop_complete fl p close V Fol ts1.length n xs l1 l' ts1 rest hne hn (Nat.le_refl _)
+    (fun x hx l ts' l' rest hl => hp x hx l ts' l' rest (by simp; omega)) hfirst hclose
     (by simpa [checkAll_cons] using hall)
   simp [many, bind_eq, expect_pos (cls_kind hc), c]
 
@@ -143,7 +144,7 @@ theorem optMany_sound {α} (fl : Flags) (p : P α) (opn close : TokKind) (hop : 
 theorem optMany_complete {α} (fl : Flags) (p : P α) (opn close : TokKind) (V : α → Item) (Fol : List Tok → Prop)
     (n : Nat) (xs : List α) (l l' : Tok) (ts rest : List Tok)
     (hn : xs.length ≤ n)
-    (hp : ∀ x ∈ xs, ∀ l ts' l' rest, ts'.length ≤ ts.length → (V x).check fl l ts' = some (l', rest) → Fol rest →
+    (hp : ∀ x ∈ xs, ∀ l ts' l' rest, ts'.length < ts.length → (V x).check fl l ts' = some (l', rest) → Fol rest →
         p ⟨ts', l⟩ = .ok (x, ⟨rest, l'⟩))
     (hfirst : ∀ x ∈ xs, ∀ l ts r, (V x).check fl l ts = some r → Fol ts ∧ NotK [close] ts)
     (hclose : ∀ t tl, t.kind = close → Fol (t :: tl))
